@@ -150,6 +150,12 @@ func (m *UpstreamClusterController) syncUpstreamCluster(obj interface{}) (syncqu
 	err = info.Sync(cluster)
 	if err != nil {
 		klog.Errorf("failed to sync cluster: %v, err: %v", cluster.Name, err)
+		// Sync is not atomic: the secure serving config (and with it the server names) may already be applied.
+		// Keep the manager in step with the names the cluster info reports now, otherwise the next sync sees no
+		// change in the names and never registers (or releases) them.
+		if err := m.AddOrUpdateForServerNames(oldServerNames, info); err != nil {
+			klog.Errorf("Update cluster %q err: %v", info.Cluster, err)
+		}
 		return syncqueue.Result{RequeueAfter: 5 * time.Second, MaxRequeueTimes: 3}, nil
 	}
 
